@@ -56,6 +56,7 @@ Sensitivity (quick tier, seed 1, one textual mutation at a time on a scratch cop
     awaited - functools.partial of an async def, lambda, callable object with async __call__) since the callback FORM
     became a generated dimension and the "every fired timer => exactly one invocation unless stop() came first"
     accounting was added.  Earlier version: missed (only `async def` handed over directly).
+  * seeded C39-8 (round 8): double re-arm after a raising callback                 -> caught at seed 1 (C39.two_timers_armed)
   * jitter one-sided: `1 + jitter * random()`                                   -> caught (C39.more_than_one_period_ahead)
   * no skipping: always `_next_timeout += period`                               -> caught (C39.before_current_time)
   * measured from now: `_next_timeout = now + period`                           -> caught (C39.off_grid)
